@@ -103,6 +103,8 @@ def reset_execution():
     STATE.dirty = set()
     STATE.slists = []
     STATE.priv_owner = {}
+    from . import gstate
+    gstate.reset()  # module globals / class attributes / memoising caches of the package back to their pristine values
 
 
 def relp(p):
